@@ -18,7 +18,7 @@ pub struct Case {
     pub frames: usize, // base/tool isometry choice
     pub layout: usize,
     pub safety: usize, // 0 touch, 1 3 cm
-    pub limits: usize, // 0 wide, 1 window, 2 window with hand-set centres / tolerances (public fields)
+    pub limits: usize, // 0 wide, 1 window, 2 window with hand-set centres / tolerances (public fields), 3 J4/J6 ranges that wrap, 4 J6 unconstrained (from == to)
     pub q: Joints,
 }
 
@@ -42,7 +42,7 @@ fn extra_layout(k: usize) -> Vec<EnvObj> {
     }
 }
 
-fn cell_for(c: &Case) -> CellDesc {
+pub(crate) fn cell_for(c: &Case) -> CellDesc {
     let (b, t) = frames(c.frames);
     let mut cell = CellDesc::standard();
     cell.base = Some(b);
@@ -53,6 +53,11 @@ fn cell_for(c: &Case) -> CellDesc {
         Limits { from: [-3.1; 6], to: [3.1; 6], weight: 0.0 }
     } else if c.limits == 2 {
         Limits { from: [-1.0, -1.5, -2.8, -0.5, -2.0, -2.5], to: [2.5, 2.4, 2.8, 0.9, 2.0, 0.5], weight: 0.6 }
+    } else if c.limits == 3 {
+        // J4 and J6 ranges wrap through pi (from > to): allowed |x| >= 1.5 on J6
+        Limits { from: [-3.1, -3.1, -3.1, 2.0, -3.1, 1.5], to: [3.1, 3.1, 3.1, -2.0, 3.1, -1.5], weight: 0.0 }
+    } else if c.limits == 4 {
+        Limits { from: [-3.1, -3.1, -3.1, -3.1, -3.1, 0.7], to: [3.1, 3.1, 3.1, 3.1, 3.1, 0.7], weight: 0.25 }
     } else {
         // wide ranges whose centres are far from zero, so the CONSTRAINT_CENTERED reference differs from zeros
         Limits { from: [-1.0, -1.5, -2.8, -0.5, -2.0, -5.5], to: [4.5, 2.4, 2.8, 5.5, 2.0, 0.5], weight: 0.5 }
@@ -83,7 +88,7 @@ fn reference_stack(c: &Case, cell: &CellDesc) -> std::sync::Arc<dyn Kinematics> 
     Arc::new(Tool { robot: Arc::new(Base { robot: Arc::new(core), base: to_na(&b) }), tool: to_na(&t) })
 }
 
-fn build(c: &Case, cell: &CellDesc) -> KinematicsWithShape {
+pub(crate) fn build(c: &Case, cell: &CellDesc) -> KinematicsWithShape {
     let (b, t) = frames(c.frames);
     let lm = link_meshes(&cell.subdiv).map(|m| m.to_parry());
     let cons = constraints_for(c, cell);
@@ -197,6 +202,9 @@ pub fn eval(c: &Case) -> (Vec<(String, String)>, String) {
     prev_near[3] += 0.2;
     let mut kept_sig = String::new();
     let exact_prevs: Vec<Joints> = call(inner.as_ref(), Entry::Inverse, &pose, &prev_near, 0.4).unwrap_or_default();
+    // J6 values handed to the 5-DOF entry point: ordinary, near the edge of a wrapping range, a whole turn away
+    let j6s = [0.4, 2.9, 0.4 + 2.0 * std::f64::consts::PI];
+    let mut call_no = 0usize;
     for (entry, prev) in ENTRIES.iter().flat_map(|e| {
         let mut v = vec![(*e, prev_near)];
         if e.uses_prev() {
@@ -207,10 +215,16 @@ pub fn eval(c: &Case) -> (Vec<(String, String)>, String) {
             for s in &exact_prevs {
                 v.push((*e, *s));
             }
+        } else if *e == Entry::FiveDof {
+            // the explicit-J6 entry point once per J6 argument (marked by the otherwise unused J1 slot of `prev`)
+            v.push((*e, { let mut p = prev_near; p[0] = 1.0; p }));
+            v.push((*e, { let mut p = prev_near; p[0] = 2.0; p }));
         }
         v
     }) {
-        let all = match call(inner.as_ref(), entry, &pose, &prev, 0.4) {
+        call_no += 1;
+        let j6 = if entry == Entry::FiveDof { j6s[if prev[0] == 1.0 { 1 } else if prev[0] == 2.0 { 2 } else { 0 }] } else { j6s[call_no % 3] };
+        let all = match call(inner.as_ref(), entry, &pose, &prev, j6) {
             Ok(s) => s,
             Err(m) => {
                 fails.push((format!("C11/panic-inner/{}", entry.name()), m));
@@ -224,7 +238,7 @@ pub fn eval(c: &Case) -> (Vec<(String, String)>, String) {
                 interference_differs = true;
             }
         }
-        let got = match call(&robot, entry, &pose, &prev, 0.4) {
+        let got = match call(&robot, entry, &pose, &prev, j6) {
             Ok(s) => s,
             Err(m) => {
                 fails.push((format!("C11/panic/{}/{ctor}", entry.name()), m));
@@ -260,7 +274,7 @@ pub fn run(ctx: &Ctx) -> Report {
     let qs = crate::c10::postures(false);
     let qs: Vec<Joints> = if thorough { qs } else { qs.into_iter().step_by(5).collect() };
     let layouts = [0usize, 2, 3, 9, 10, 11, 12, 13];
-    let sizes = [3, 3, layouts.len(), 2, 3, qs.len()];
+    let sizes = [3, 3, layouts.len(), 2, 5, qs.len()];
     let n = par::product(&sizes);
     let mut rep = par::run(n, |idx, r| {
         let mut ix = [0usize; 6];
@@ -295,11 +309,11 @@ pub fn run(ctx: &Ctx) -> Report {
     }
     rep.traces_validated = rep.transitions;
     rep.rule = "constructors {new(first only), new(all), with_safety} x base/tool isometries {identity, shifted, rotated} x environments {free, near, blocking \
-                slab/wall/cage, ...} x safety {touch, 3 cm} x limits {wide, window+weight with off-zero centres, window with hand-set centres/tolerances} x postures x four inverse entry points x previous {near the solution, CONSTRAINT_CENTERED, far out, each answer of the underlying stack itself}; oracle (differential): answers \
+                slab/wall/cage, ...} x safety {touch, 3 cm} x limits {wide, window+weight with off-zero centres, window with hand-set centres/tolerances, wrapping J4/J6 ranges, J6 unconstrained} x J6 arguments {0.4, 2.9, 0.4 + 2 pi} x postures x four inverse entry points x previous {near the solution, CONSTRAINT_CENTERED, far out, each answer of the underlying stack itself}; oracle (differential): answers \
                 == ordered filter of the underlying stack's answers by an empty collision_details, bit-equal, while a second robot (same environment size, obstacles moved / other safety) is asked about the first candidate just before each call; forward, link poses, singularity bit-equal to the underlying stack (tool over base over the limited robot, built independently from the same pieces); \
                 stack == base*FK_ref*tool with the given limits; positioned_robot == link poses cast to f32, tool on link 6, environment passed through; \
                 signature = (constructor, kept k of n)".into();
-    rep.set("axes", json!({"constructors": 3, "frames": 3, "layouts": layouts.len(), "safety": 2, "limits": 3, "postures": qs.len()}));
+    rep.set("axes", json!({"constructors": 3, "frames": 3, "layouts": layouts.len(), "safety": 2, "limits": 5, "postures": qs.len()}));
     rep.assumptions.push("collides() itself is tied to the brute-force pair oracle by C10".into());
     rep
 }
